@@ -98,8 +98,8 @@ Example C12_calc2_alloc_ex :
      returned when sequence destroyed its predecessor; the block of 3 when the owner destroys the root operation *)
   r_tr (exec ex false [EvLeaf 2 (OVal 1) 0; EvLeaf 1 (OVal 1) 0]) =
     [XT (TAlloc 3); XT (TLeafStart 1 false true 0 0 0 0); XT (TAlloc 5); XT (TLeafStart 2 false true 0 0 0 0);
-     XT (TLeafDtor 2); XT (TFree 5); XT (TAlloc 5); XT (TFree 5); XT (TLeafStop 1); XT (TValCtor SAll 1); XRoot (OErr 78) 0 0; XRootDtor;
-     XT (TLeafDtor 1); XT (TFree 3); XT (TValDtor SAll 1)] /\
+     XT (TLeafDtor 2); XT (TFree 5); XT (TAlloc 5); XT (TFree 5); XT (TLeafStop 1); XRoot (OErr 78) 0 0; XRootDtor;
+     XT (TLeafDtor 1); XT (TFree 3)] /\
   (* connect of the whole expression throws: both blocks are unwound to their own allocators *)
   r_tr (exec (Un UAllocate (Un (UWithAlloc 4) (Un UAllocate (LeafC 1)))) false []) =
     [XT (TAlloc 0); XT (TAlloc 4); XT (TFree 4); XT (TFree 0); XConnectThrow].
@@ -124,8 +124,7 @@ Example C12_calc2_ex :
      XT (TLeafDtor 4); XT (TPred false);
      XT (TLeafStart 4 false false 7 0 1 5); XT (TLeafDtor 1);
      XT (TLeafStart 2 false false 7 5 2 6); XT (TReqStop 4 0);
-     XT (TLeafDtor 4); XT (TPred true); XT (TValCtor SAnyV 0); XT (TValCtor SCell 0); XT (TLeafStop 3);
-     XT (TValCtor SAll 3)].
+     XT (TLeafDtor 4); XT (TPred true); XT (TLeafStop 3)].
 Proof.
   intros ex. split; [repeat constructor; simpl; intuition discriminate|].
   vm_compute. split; reflexivity.
